@@ -118,19 +118,17 @@ partial def regionWhyFs (S : StrFns) (camel : Bool) (L : List Mapper) (depth : N
   | [] => ""
   | .scalar _ _ :: fs => regionWhyFs S camel L depth fs
   | .nested n _ _ ci fs' :: fs =>
-    let L' := ci.ser ++ enumsOf L
+    let L' := ci.ser ++ thru n L
     let here :=
       if !ci.des.isNone then "nested-deserialization-mapper"
       else if !trackOK S L n then "nested-entry-not-tracked"
-      else if !ci.ser.all plainMapper then "nested-own-mapper-not-plain"
       else if fs'.isEmpty then "nested-class-empty"
-      else if !prefixOK S fs' [] L' then "nested-rekey-collision"
+      else if !prefixOK S fs' [] L' then "nested-level-round-collides-or-steps-differently"
       else if !reaggOK S L' fs' then
         (if fs'.any (fun f => match f with | .nested _ _ _ c2 _ => !(c2.ser.isEmpty && c2.desL.isEmpty) | _ => false)
-         then (if (enumsOf L').isEmpty then s!"own-mapper-at-depth>={depth + 2}:other"
-               else s!"own-mapper-at-depth>={depth + 2}-under-an-enum-mapper")
+         then s!"own-mapper-at-depth>={depth + 2}-under-a-mapper-that-reaches-it"
          else "reaggregation-level-not-ok")
-      else if !mkeysNodup (shapeFields S (L' ++ camelTail camel) fs') then "camel-round-collision"
+      else if !prefixOK S fs' L' (camelTail camel) then "camel-round-collision"
       else regionWhyFs S camel (L' ++ camelTail camel) (depth + 1) fs'
     if here != "" then here else regionWhyFs S camel L depth fs
 
@@ -138,8 +136,7 @@ def regionWhy (S : StrFns) (c : Cls) (ov : Option MDict) (camel : Bool) : String
   let L := effList c.own ov camel
   if !c.des.isNone then "deserialization-mapper"
   else if !wfFields c.fields then "duplicate-field-names"
-  else if !L.all plainMapper then "top-mapper-not-plain(nested-entry-or-dict-value)"
-  else if !prefixOK S c.fields [] L then "top-rekey-collision"
+  else if !prefixOK S c.fields [] L then "top-level-round-collides-or-steps-differently"
   else if !mkeysNodup (shapeFields S L c.fields) then "top-keys-collide"
   else regionWhyFs S camel L 0 c.fields
 
@@ -155,11 +152,11 @@ def runOne (cache : Cache) (j : Json) : Except String (List (String × Json) × 
   let c ← clsOfJson (← j.getObjVal? "cls")
   let camel ← (← j.getObjVal? "camel").getBool?
   let strict ← (← j.getObjVal? "strict").getBool?
-  -- `keep_undefined` as it reaches deserialize_structure_internal: "auto" = Deserializer's default
-  -- (on exactly when the target class forbids additional properties)
+  -- `keep_undefined` as it reaches deserialize_structure_internal: absent = Deserializer's default
+  -- (False for every class since /repo 005d815)
   let ku := match optField j "ku" with
     | some (.bool b) => b
-    | _ => c.closedAny
+    | _ => false
   let ov ← match optField j "explicit" with
     | none => pure none
     | some x => do pure (some (← mdictOfJson x))
